@@ -900,3 +900,59 @@ Proof.
   assert (H4 : (b =? 227) = false) by (apply N.eqb_neq; lia).
   rewrite H1, H2, H3, H4. reflexivity.
 Qed.
+
+(* ================================================================================ *)
+(* 7. the suffix test of the codec choice is a suffix test                            *)
+(* ================================================================================ *)
+Lemma starts_with_spec : forall pre s, starts_with pre s = true <-> exists t, s = pre ++ t.
+Proof.
+  induction pre as [|a pre IH]; intros s; cbn.
+  - split; [intros _; exists s; reflexivity|reflexivity].
+  - destruct s as [|b s]; [split; [discriminate|intros (t & E); discriminate]|].
+    rewrite andb_true_iff, N.eqb_eq, IH. split.
+    + intros [-> (t & ->)]. exists t. reflexivity.
+    + intros (t & E). injection E as -> ->. split; [reflexivity|exists t; reflexivity].
+Qed.
+
+Theorem ends_with_spec : forall s suf, ends_with s suf = true <-> exists pre, s = pre ++ suf.
+Proof.
+  intros s suf. unfold ends_with. rewrite rev_append_rev, app_nil_r, starts_with_spec. split.
+  - intros (t & E). exists (rev t). apply (f_equal (@rev N)) in E.
+    rewrite rev_involutive, rev_app_distr, rev_involutive in E. exact E.
+  - intros (pre & ->). exists (rev pre). apply rev_app_distr.
+Qed.
+
+(* hence: a key gets the codec of the first suffix class (in registry order) that one of whose
+   extensions ends its lower-cased form, and none if no extension does *)
+Theorem writer_codec_spec : forall key,
+  let lk := map lower key in
+  let has := fun exts => exists e pre, In e exts /\ lk = pre ++ e in
+  match writer_codec key with
+  | Some Gzip => has [ext_gz; ext_gzip]
+  | Some Zstd => ~ has [ext_gz; ext_gzip] /\ has [ext_zst; ext_zstd]
+  | Some Bzip2 => ~ has [ext_gz; ext_gzip] /\ ~ has [ext_zst; ext_zstd] /\ has [ext_bz2; ext_bzip2]
+  | Some Xz => ~ has [ext_gz; ext_gzip] /\ ~ has [ext_zst; ext_zstd] /\ ~ has [ext_bz2; ext_bzip2] /\
+               has [ext_xz]
+  | None => ~ has [ext_gz; ext_gzip] /\ ~ has [ext_zst; ext_zstd] /\ ~ has [ext_bz2; ext_bzip2] /\
+            ~ has [ext_xz]
+  end.
+Proof.
+  intros key lk has.
+  assert (H : forall exts, existsb (ends_with lk) exts = true <-> has exts).
+  { intros exts. rewrite existsb_exists. subst has. cbn beta. split.
+    - intros (e & Hin & He). apply ends_with_spec in He. destruct He as (pre & E).
+      exists e, pre. split; assumption.
+    - intros (e & pre & Hin & E). exists e. split; [exact Hin|]. apply ends_with_spec.
+      exists pre. exact E. }
+  assert (Hn : forall exts, existsb (ends_with lk) exts = false -> ~ has exts).
+  { intros exts E Hh. apply H in Hh. congruence. }
+  unfold writer_codec. fold lk.
+  destruct (existsb (ends_with lk) [ext_gz; ext_gzip]) eqn:E1; [apply H; exact E1|].
+  destruct (existsb (ends_with lk) [ext_zst; ext_zstd]) eqn:E2;
+    [split; [apply Hn; exact E1|apply H; exact E2]|].
+  destruct (existsb (ends_with lk) [ext_bz2; ext_bzip2]) eqn:E3;
+    [split; [apply Hn; exact E1|split; [apply Hn; exact E2|apply H; exact E3]]|].
+  destruct (existsb (ends_with lk) [ext_xz]) eqn:E4.
+  - split; [apply Hn; exact E1|split; [apply Hn; exact E2|split; [apply Hn; exact E3|apply H; exact E4]]].
+  - split; [apply Hn; exact E1|split; [apply Hn; exact E2|split; [apply Hn; exact E3|apply Hn; exact E4]]].
+Qed.
